@@ -10,6 +10,7 @@ appears below.
 import ZV.Model.Graph
 import ZV.Model.GraphSpec
 import ZV.Props.C08Statements
+import ZV.Proofs.Kosaraju
 
 namespace ZV.Props.C08
 open ZV.Graph
@@ -33,5 +34,12 @@ theorem sortByKey_perm (key : Nat → Nat) (xs : List Nat) : (sortByKey key xs).
         · exact (List.Perm.cons y ih2).trans (List.Perm.swap x y ys)
     unfold sortByKey
     exact (hins _).trans (List.Perm.cons x ih)
+
+/-- The two depth-first searches never run out of fuel and the labelling never fails. -/
+theorem kosaraju_total : Statement.kosaraju_total := ZV.Graph.kosaraju_total_pf
+
+/-- Kosaraju's labelling is exactly the strongly connected components, whatever the hash-map
+iteration order. -/
+theorem kosaraju_correct : Statement.kosaraju_correct := ZV.Graph.kosaraju_correct_pf
 
 end ZV.Props.C08
